@@ -232,6 +232,9 @@ def clause_helper(ex, st, name, args, kwargs, node):
 # -------------------------------------------------------------------- builtins
 def builtin(ex, st, name, args, kwargs, node):
     eng = ex.eng
+    if kwargs and name not in ("dict",):
+        # no modelled built-in looks at keyword arguments: ignoring one (sorted(key=...), int(x, base=...)) would be unsound
+        raise _U(f"keyword arguments to the built-in {name}")
     a0 = ex.narrow(st, args[0]) if args and isinstance(args[0], V) else (args[0] if args else None)
     if name == "len":
         v = a0
